@@ -55,6 +55,10 @@ type Work struct {
 	// small library (one prelude, many requests): the executions then call the SAME script function values. Otherwise
 	// each environment defines the library itself.
 	SharedBase bool `json:"shared_base,omitempty"`
+	// TemplateCopy: every environment of the case is a DeepCopy() of ONE prepared template scope (an embedder's
+	// "prepare once, copy per request"): whatever a copy shares with its origin or with its sibling copies - a table,
+	// a slice header, a cache - is then written by several executions
+	TemplateCopy bool `json:"template_copy,omitempty"`
 }
 
 // the library of SharedBase: functions that go through every calling convention (fixed arities below and above
@@ -66,6 +70,8 @@ var (
 	baseLibTree ast.Stmt
 	// sharedBase is set for the duration of a case whose Work says SharedBase (cases run one at a time per process)
 	sharedBase *env.Env
+	// sharedTemplate is set for the duration of a case whose Work says TemplateCopy
+	sharedTemplate *env.Env
 )
 
 func baseLib() ast.Stmt {
@@ -75,6 +81,21 @@ func baseLib() ast.Stmt {
 
 // withBase arranges the case's base environment (or none) and returns the function that undoes it.
 func withBase(w *Work) func() {
+	if w.TemplateCopy {
+		b := env.NewEnv()
+		st, _ := parser.ParseSrc(baseLibSrc)
+		vm.Run(b, nil, st)
+		t := b.NewEnv()
+		// a handful of bindings of the template's own, some of them removed again (tables and whatever is kept
+		// beside them then have spare room and a history)
+		for k := 0; k < 5; k++ {
+			t.Define("tq"+strconv.Itoa(k), int64(k))
+		}
+		t.Delete("tq1")
+		t.Delete("tq3")
+		sharedTemplate = t
+		return func() { sharedTemplate = nil }
+	}
 	if !w.SharedBase {
 		return func() {}
 	}
@@ -341,6 +362,7 @@ func (Prop) Gen(seed int64, tier string) *harness.Case {
 	w.ErrTail = r.Intn(5) == 0
 	w.OptMode = r.Intn(3)
 	w.SharedBase = r.Intn(3) == 0
+	w.TemplateCopy = !w.SharedBase && r.Intn(3) == 0
 	wb, _ := json.Marshal(w)
 	density := []int{2, 10, 30, 60}[r.Intn(4)]
 	return &harness.Case{Prop: "C14", Seed: seed, Tier: tier, Workload: wb,
@@ -558,7 +580,11 @@ func render(v interface{}) string {
 // mkEnv builds configuration i: the same names bound to different things.
 func mkEnv(i int, out *runOut, mu *sync.Mutex) *env.Env {
 	var e *env.Env
-	if sharedBase != nil {
+	if sharedTemplate != nil {
+		e = sharedTemplate.DeepCopy()
+		// one name that only this configuration binds, first thing after the copy
+		e.Define("only"+strconv.Itoa(i), int64(i))
+	} else if sharedBase != nil {
 		e = sharedBase.NewEnv()
 	} else {
 		e = env.NewEnv()
@@ -904,6 +930,9 @@ func (Prop) Run(t *testing.T, c *harness.Case, verbose bool) *harness.Result {
 	defer withBase(&w)()
 	if w.SharedBase {
 		res.Counters["executions_share_a_base_environment"]++
+	}
+	if w.TemplateCopy {
+		res.Counters["executions_on_deep_copies_of_one_template"]++
 	}
 	dump0 := dumpTree(shared)
 	pk0 := packagesDigest()
